@@ -1,5 +1,5 @@
 From Coq Require Import Extraction ExtrOcamlBasic.
 From PV Require Import Lib.ExtBase C35.Model.
 Extraction "model.ml" ext_base_z ext_base_n ext_base_nat ext_base_res ext_base_list
-  run_from_empty last_ok_from_empty init_doc run last_ok init_store observe extract arun empty_store wf_op fresh_adds
+  run_from_empty last_ok_from_empty init_doc init_doc_att att_find extract_many att_probes a_fname a_desc a_data run last_ok init_store observe extract arun empty_store wf_op fresh_adds
   kw_of_text join trim encode_name decode_name blank_b.
